@@ -23,6 +23,7 @@ type Profile struct {
 	Repo           string   `json:"repo"`
 	Seed           int64    `json:"seed"`
 	Words          []string `json:"words"`            // read-words to instantiate the name class "readword" with
+	Spellings      []string `json:"spellings"`        // letter-case variants of the index fields for the case* body shapes
 	RoutesPerShape int      `json:"routes_per_shape"` // 0 = every concrete route of the shape
 	SkipSlow       bool     `json:"skip_slow"`        // do not run the 1 s profile/trace handlers with an accepted token
 	Log            bool     `json:"log"`              // debugging: one line per request in the result
